@@ -101,6 +101,7 @@ StreamsManagerBase<MAX_STREAMS> {
     #[inline(always)]
     pub fn wake_stream(&self, stream_id: u32) {
         let wakers = unsafe { &* self.wakers.get() };
+        #[cfg(feature = "verif")] crate::verif::note(crate::verif::SM_WAKE_BEFORE_READ, stream_id as u64);
         #[cfg(feature = "verif")] crate::verif::point(crate::verif::SM_WAKE_BEFORE_READ);
         match unsafe {wakers.get_unchecked(stream_id as usize)} {
             Some(waker) => waker.wake_by_ref(),
